@@ -475,6 +475,7 @@ func run(t *testing.T, c Case) (string, string) {
 func TestCheck(t *testing.T) {
 	r := mc.New(t, "C04")
 	defer r.Finish()
+	r.CrashFails = true
 	record := func(c Case, kind, detail string) {
 		r.Eval(1)
 		r.Transition(3)
